@@ -131,7 +131,8 @@ def build(case, hetero=None):
         eqp["a"] = jnp.asarray(1)
     EQC = {"ode": EqO, "statio": EqS, "nonstatio": EqN}[bk]
     sysk = "u" if kind.startswith("sys") else None
-    dyn = EQC(use_eq=use_eq, key=sysk, eq_params_heterogeneity=hetero)
+    tk = {"Tmax": case["Tmax"]} if case.get("Tmax") and bk != "statio" else {}
+    dyn = EQC(use_eq=use_eq, key=sysk, eq_params_heterogeneity=hetero, **tk)
     obs_rows = case.get("b", 2)
     nv = L.nvar_of(bk, d)
     obs = {"pinn_in": jnp.asarray(L.points(obs_rows, nv, salt=8)), "val": jnp.asarray(np.linspace(0.2, 0.6, obs_rows)[:, None]), "eq_params": {}}
@@ -287,7 +288,8 @@ def run_hetero(case):
                 funs[k] = (lambda x, u, p, j=j, k=k: p.eq_params[k] * 0 + (0.2 + 0.1 * j) + (1.0 + j) * x[0] + 0.1 * raw(p, k))
             else:
                 funs[k] = (lambda t, x, u, p, j=j, k=k: p.eq_params[k] * 0 + (0.2 + 0.1 * j) + (1.0 + j) * t[0] + 0.1 * raw(p, k))
-    P = build(dict(kind=kind, site="equation", b=2), hetero=funs if funs or "none" in case["hmap"] else None)
+    # Tmax != 1: the functions of the map receive the point exactly as the equation does (the user equation ignores Tmax)
+    P = build(dict(kind=kind, site="equation", b=2, Tmax=3.0), hetero=funs if funs or "none" in case["hmap"] else None)
     nv = L.nvar_of(kind, P["d"])
     pts = L.points(3, nv)
     params = P["params"]
